@@ -12,7 +12,7 @@ import copy
 from .. import align
 from ..affine import Aff, sym, path_of
 from ..astutil import (u, atoms, guard_map, path_atoms, stmts_in, calls_in, callee, callee_attr, reaching_def, def_value,
-                       PARAM, AMBIGUOUS, get_arg, get_kw, is_none, is_const, block_path, stmt_of)
+                       PARAM, AMBIGUOUS, get_arg, get_kw, is_none, is_const, block_path, stmt_of, assigns_to)
 from ..report import Undecided
 
 CL = 'gambit.cluster'
@@ -166,13 +166,61 @@ def check(ctx):
     meth = get_arg(lc, 1, 'method')
     rep.add('U1', fh.site(lc), "clustering is SciPy average linkage (UPGMA)", tgt == 'scipy.cluster.hierarchy.linkage' and is_const(meth, 'average'), expected="linkage(..., method='average')", found=(tgt, u(meth)), stmt='linkage method')
     rep.require(bool(lc.args) and not isinstance(lc.args[0], ast.Starred), 'hclust: the linkage input is not a positional argument')
-    a0 = lc.args[0]
-    av = a0
-    if isinstance(a0, ast.Name):
-        d = reaching_def(fh.node, a0.id, rets[0])
-        av = def_value(d) if d not in (None, PARAM, AMBIGUOUS) else None
-    okq = isinstance(av, ast.Call) and m.resolve_call(fh, av) == 'scipy.spatial.distance.squareform' and [u(a) for a in av.args] == [dp] and not av.keywords
-    rep.add('U1', fh.site(lc), 'the linkage input is the condensed form of the given matrix itself', okq, expected=f'squareform({dp})', found=u(av), stmt='condensed form')
+    # every value that can reach the linkage input, with the conditions under which it does (copies, if/else definitions and conditional
+    # expressions followed).  squareform converts in BOTH directions: it condenses a 2-D matrix and expands a 1-D vector, so the condensed form
+    # reaches linkage iff squareform is applied where the matrix is 2-D, or the input is passed as it is where it is 1-D (already condensed)
+    gmh = guard_map(fh.node)
+
+    def leaves(e, at, guards, depth=0):
+        if isinstance(e, ast.IfExp):
+            return leaves(e.body, at, guards + ((e.test, True),), depth) + leaves(e.orelse, at, guards + ((e.test, False),), depth)
+        if isinstance(e, ast.Name) and e.id != dp and depth < 6:
+            d = reaching_def(fh.node, e.id, at)
+            if d is AMBIGUOUS:
+                out = []
+                for x in assigns_to(fh.node, e.id):
+                    v = def_value(x)
+                    out += leaves(v, x, guards + tuple(gmh[x]), depth + 1) if v is not None else [(None, x, guards)]
+                return out
+            v = def_value(d) if d not in (None, PARAM) else None
+            if v is not None:
+                return leaves(v, d, guards, depth + 1)
+        return [(e, at, guards)]
+
+    def ndim_facts(guards, value):
+        """(all facts about <matrix>.ndim hold for this value, some fact excludes the other dimensionality)"""
+        nd = f'{dp}.ndim'
+        holds, decisive = True, False
+        for a in path_atoms(guards):
+            if len(a) != 3 or nd not in a[1:]:
+                continue
+            other = a[2] if a[1] == nd else a[1]
+            try:
+                c = int(other)
+            except ValueError:
+                continue
+            x, y = (value, c) if a[1] == nd else (c, value)
+            alt = 3 - value                                  # the other of {1, 2}
+            xa, ya = (alt, c) if a[1] == nd else (c, alt)
+            f = {'eq': lambda p_, q_: p_ == q_, 'ne': lambda p_, q_: p_ != q_, 'lt': lambda p_, q_: p_ < q_, 'le': lambda p_, q_: p_ <= q_}.get(a[0])
+            if f is None:
+                continue
+            holds = holds and f(x, y)
+            decisive = decisive or not f(xa, ya)
+        return holds, decisive
+    lvs = leaves(lc.args[0], rets[0], tuple(gmh[rets[0]]))
+    for (v, at, guards) in lvs:
+        is_sq = isinstance(v, ast.Call) and m.resolve_call(fh, v) == 'scipy.spatial.distance.squareform' and [u(a) for a in v.args] == [dp] and not v.keywords
+        is_raw = isinstance(v, ast.Name) and v.id == dp
+        rep.add('U1', fh.site(lc), 'the linkage input is the condensed form of the given matrix itself', is_sq or is_raw, expected=f'squareform({dp})', found=u(v), stmt='condensed form')
+        if is_sq:
+            holds, _ = ndim_facts(guards, 2)
+            rep.add('U1', fh.site(at), 'squareform is applied where the matrix is square (2-D): that is where it condenses', holds, expected=f'{dp}.ndim == 2 on the path (asserted, tested, or left to the caller)',
+                    found=sorted(a for a in path_atoms(guards) if f'{dp}.ndim' in a[1:]), stmt='square input')
+        elif is_raw:
+            holds, decisive = ndim_facts(guards, 1)
+            rep.add('U1', fh.site(at), 'the matrix is handed to linkage as it is only where it is already condensed (1-D)', holds and decisive, expected=f'{dp}.ndim == 1 on the path',
+                    found=sorted(a for a in path_atoms(guards) if f'{dp}.ndim' in a[1:]), stmt='condensed input passed through')
     rep.account_returns('U1', fh, rets, 'linkage')
     extra = [k.arg for k in lc.keywords if k.arg not in ('method',)]
     rep.add('U1', fh.site(lc), 'no other linkage option (metric / optimal ordering) alters the result', not extra and len(lc.args) <= 2, expected='none', found=extra, stmt='linkage options')
@@ -192,9 +240,12 @@ def check(ctx):
                 env[nl] = sym('NL')
     rep.add('U2', ft.site(), 'number of leaves = linkage rows + 1', nl is not None, expected=f'{lk}.shape[0] + 1', found=[u(s) for s in fn.body if isinstance(s, ast.Assign)][:2], stmt='nleaves')
     rep.require(nl is not None, 'linkage_to_bio_tree: nleaves not found')
-    loops = [s for s in fn.body if isinstance(s, ast.For)]
+    # the row loop is the loop over the linkage matrix (unpacking its four columns); any other top-level loop must be the one that
+    # builds the leaves (decided by the 'leaves' rule below)
+    all_loops = [s for s in fn.body if isinstance(s, (ast.For, ast.While))]
+    loops = [s for s in all_loops if isinstance(s, ast.For) and (u(s.iter) == lk or (isinstance(s.target, ast.Tuple) and len(s.target.elts) == 4))]
     rep.require(len(loops) == 1 and isinstance(loops[0].target, ast.Tuple) and len(loops[0].target.elts) == 4 and all(isinstance(e, ast.Name) for e in loops[0].target.elts),
-                'linkage_to_bio_tree: expected one loop unpacking four columns')
+                'linkage_to_bio_tree: expected one loop over the linkage rows unpacking four columns')
     lp = loops[0]
     cl, cr, hv, sz = (u(e) for e in lp.target.elts)
     rep.add('U2', ft.site(lp), 'linkage rows are visited in order and unpacked as (left, right, height, size)', u(lp.iter) == lk, expected=f'for left, right, height, size in {lk}', found=(u(lp.iter), u(lp.target)), stmt='row unpack')
@@ -255,9 +306,22 @@ def check(ctx):
     rep.add('U2', ft.site(ap), 'each row appends one new clade holding exactly its two children (so node id = nleaves + row index)', okc,
             expected=f'{clades}.append(Clade(clades=[left, right]))', found=f'{clades}.append({u(new_clade)})', stmt='new clade')
     cdef = [s for s in fn.body if isinstance(s, ast.Assign) and u(s.targets[0]) == clades]
-    okl = len(cdef) == 1 and isinstance(cdef[0].value, ast.ListComp) and u(cdef[0].value.generators[0].iter) == lb and not cdef[0].value.generators[0].ifs \
-        and u(cdef[0].value.elt) == f'Clade(name={u(cdef[0].value.generators[0].target)})'
-    rep.add('U2', ft.site(cdef[0] if cdef else None), 'leaves are one clade per label, in label order (leaf i = observation i)', okl, expected=f'[Clade(name=name) for name in {lb}]', found=[u(c.value) for c in cdef], stmt='leaves')
+    leaf_loops = [s for s in all_loops if s is not lp]
+    okl, leaf_found = False, [u(c.value) for c in cdef]
+    if len(cdef) == 1 and isinstance(cdef[0].value, ast.ListComp) and not leaf_loops:
+        g = cdef[0].value.generators
+        okl = len(g) == 1 and u(g[0].iter) == lb and not g[0].ifs and u(cdef[0].value.elt) == f'Clade(name={u(g[0].target)})'
+    elif len(cdef) == 1 and isinstance(cdef[0].value, ast.List) and not cdef[0].value.elts and len(leaf_loops) == 1 and isinstance(leaf_loops[0], ast.For):
+        # the same as an append loop: an empty list, then one clade appended per label, in label order, before the first row is visited
+        ll = leaf_loops[0]
+        ex = RowExec('linkage_to_bio_tree (leaf loop)')
+        ex.block(ll.body)
+        leaf_found.append(u(ll).replace('\n', '; ')[:90])
+        okl = u(ll.iter) == lb and isinstance(ll.target, ast.Name) and not ll.orelse and not ex.stores and len(ex.appends) == 1 and ex.appends[0][0] == clades \
+            and u(ex.appends[0][1]) == f'Clade(name={ll.target.id})' and fn.body.index(cdef[0]) < fn.body.index(ll) < fn.body.index(lp)
+    else:
+        rep.require(not leaf_loops or len(cdef) != 1, f'linkage_to_bio_tree: top-level loop outside the vocabulary: {u(leaf_loops[0]).splitlines()[0] if leaf_loops else ""}')
+    rep.add('U2', ft.site(cdef[0] if cdef else None), 'leaves are one clade per label, in label order (leaf i = observation i)', okl, expected=f'[Clade(name=name) for name in {lb}]', found=leaf_found, stmt='leaves')
     asserts = [s for s in fn.body if isinstance(s, ast.Assert)]
     oka = any(atoms(a.test) == {('eq', f'len({lb})', nl)} for a in asserts)
     rep.add('U2', ft.site(asserts[0] if asserts else None), 'the number of labels must equal the number of leaves', oka, expected=f'assert len({lb}) == {nl}', found=[u(a.test) for a in asserts], stmt='label count')
@@ -409,4 +473,17 @@ VARIANTS = [
     V('copies: the operand is a reordered view of the object the labels were read from', 'B', _T, "\t\tsigs = load_signatures(sigfile)\n\t\tlabels = sigs.ids\n", "\t\tloaded = load_signatures(sigfile)\n\t\tlabels = loaded.ids\n\t\tsigs = loaded[::-1]\n", 'U3'),
     V('E: file ids bound to a local and copied into the labels', 'E', _T, "\t\tlabels, genome_files = common.get_sequence_files(files_arg, listfile, ldir)\n", "\t\tfile_ids, genome_files = common.get_sequence_files(files_arg, listfile, ldir)\n\t\tlabels = file_ids\n"),
     V('copies: the labels are the file objects, not the ids', 'B', _T, "\t\tlabels, genome_files = common.get_sequence_files(files_arg, listfile, ldir)\n", "\t\tfile_ids, genome_files = common.get_sequence_files(files_arg, listfile, ldir)\n\t\tlabels = genome_files\n", 'U3'),
+    # ---- second round: squareform converts both ways, so U1 decides the dimensionality under which it is applied
+    V('shape assertion inverted: squareform would only ever see a vector (and expand it)', 'B', _C, "\tassert dmat.ndim == 2\n", "\tassert dmat.ndim != 2\n", 'U1'),
+    V('shape assertion admits vectors only', 'B', _C, "\tassert dmat.ndim == 2\n", "\tassert dmat.ndim == 1\n", 'U1'),
+    V('shape assertion asks for three dimensions', 'B', _C, "\tassert dmat.ndim == 2\n", "\tassert dmat.ndim == 3\n", 'U1'),
+    V('E: shape check as a raise', 'E', _C, "\tassert dmat.ndim == 2\n", "\tif dmat.ndim != 2:\n\t\traise ValueError('expected a square matrix')\n"),
+    V('E: square matrices are condensed, vectors are taken as already condensed (conditional expression)', 'E', _C, "\tassert dmat.ndim == 2\n\tsm = squareform(dmat)\n", "\tsm = squareform(dmat) if dmat.ndim == 2 else dmat\n"),
+    V('conditional expression the wrong way round: the square matrix goes to linkage as observation vectors', 'B', _C, "\tassert dmat.ndim == 2\n\tsm = squareform(dmat)\n", "\tsm = squareform(dmat) if dmat.ndim != 2 else dmat\n", 'U1'),
+    V('E: the same as an if statement', 'E', _C, "\tassert dmat.ndim == 2\n\tsm = squareform(dmat)\n", "\tif dmat.ndim == 2:\n\t\tsm = squareform(dmat)\n\telse:\n\t\tsm = dmat\n"),
+    V('if statement condensing vectors and passing squares through', 'B', _C, "\tassert dmat.ndim == 2\n\tsm = squareform(dmat)\n", "\tif dmat.ndim == 1:\n\t\tsm = squareform(dmat)\n\telse:\n\t\tsm = dmat\n", 'U1'),
+    V('the matrix is never condensed', 'B', _C, "\tsm = squareform(dmat)\n", "\tsm = dmat\n", 'U1'),
+    V('E: leaves built by an append loop', 'E', _C, "\tclades = [Clade(name=name) for name in labels]\n", "\tclades = []\n\tfor name in labels:\n\t\tclades.append(Clade(name=name))\n"),
+    V('append loop over the labels in reverse', 'B', _C, "\tclades = [Clade(name=name) for name in labels]\n", "\tclades = []\n\tfor name in labels[::-1]:\n\t\tclades.append(Clade(name=name))\n", 'U2'),
+    V('append loop skips the first label', 'B', _C, "\tclades = [Clade(name=name) for name in labels]\n", "\tclades = []\n\tfor name in labels[1:]:\n\t\tclades.append(Clade(name=name))\n", 'U2'),
 ]
